@@ -1621,6 +1621,21 @@ func genC09(g *G, sc *Scenario, tier string) {
 			endOp := Op{K: "post", DS: "ds", Ents: ents(), M: map[string]any{"id": eid, "end": true}}
 			if g.P(0.35) {
 				endOp.M["scanJumpAt"], endOp.M["scanJumpMs"] = g.Range(1, 3), lease*1000+g.PickInt([]int{1, 5000})
+			} else if g.P(0.25) {
+				// the completion of this end request fails when it stores its deletions: the sync is over all the
+				// same; later the client tries its end request again, with and without the lease time gone by
+				endOp.M["commitFail"] = true
+				ops = append(ops, endOp)
+				if g.P(0.6) {
+					ops = append(ops, Op{K: "advance", N: g.PickInt([]int{1, lease*1000 + 1, lease * 2000})})
+				}
+				if g.P(0.6) {
+					ops = append(ops, Op{K: "post", DS: "ds", Ents: ents()})
+				}
+				if g.P(0.6) {
+					ops = append(ops, Op{K: "post", DS: "ds", Ents: ents(), M: map[string]any{"id": eid, "end": true}})
+				}
+				return ops
 			}
 			ops = append(ops, endOp)
 		}
